@@ -204,11 +204,21 @@ pub fn exp_cost_built<T: HLabel>(built: &Built<T>) -> u64 {
 
 /// Encoders to exercise for a target on this graph (the exp complete encoder is left out when its
 /// clause count would explode; counted in the evidence, not a verdict).
+thread_local! {
+    /// Set while a framework of more than 40 arguments is evaluated: solver objects built by the
+    /// factory-less constructor carry no SAT-boundary monitor, hence neither the call cap nor the wall-clock
+    /// cap, and one legitimately huge enumeration there would hold a shard for hours.
+    static BIG_CASE: std::cell::Cell<bool> = const { std::cell::Cell::new(false) };
+}
+
 pub fn usable_encoders(ctx: &mut Ctx, cost: u64, t: &Target) -> Vec<Enc> {
     t.ty.configs(t.kind)
         .into_iter()
         .filter(|e| {
-            if *e == Enc::ExpCo && cost > EXP_COST_LIMIT {
+            if *e == Enc::New && BIG_CASE.with(|b| b.get()) {
+                ctx.count("skipped/unmonitored-constructor-on-a-framework-above-40-arguments");
+                false
+            } else if *e == Enc::ExpCo && cost > EXP_COST_LIMIT {
                 ctx.count("skipped/exp-encoder-clause-explosion");
                 false
             } else {
@@ -1055,6 +1065,7 @@ pub fn eval_case(
             return;
         }
     };
+    BIG_CASE.with(|b| b.set(case.abs.n > 40));
     ctx.count(&format!("cases/{}", case.family));
     ctx.count(&format!("presentations/{}", case.pres.kind()));
     ctx.count(&format!("oracle/{}", oracle.kind()));
